@@ -75,6 +75,15 @@ def build(x0, gaps, la, j1, j2, m, e):
 
 def elbow(rng, la, lb, j1, j2):
     gaps = rng.integers(1, 5, la + lb)
+    if rng.random() < 0.08 and la + lb >= 6:
+        # uneven spacing that looks even from its ends: first step == last step == mean step
+        g = int(rng.integers(2, 4))
+        gaps = np.full(la + lb, g)
+        inner = np.arange(1, la + lb - 1)
+        rng.shuffle(inner)
+        for a_, b_ in zip(inner[0::2], inner[1::2]):
+            if rng.random() < 0.7:
+                gaps[a_], gaps[b_] = g - 1, g + 1
     x0 = int(rng.integers(0, 9))
     if rng.random() < 0.3:
         # the x axis may start anywhere (relative time, offsets around a reference): negative origins, axes crossing zero
